@@ -110,17 +110,28 @@ Definition mclass_of (m : rmsg) : mclass :=
 Definition prologue (g : gop_cache label) (with_sdf : bool) : list label :=
   opt_list (if with_sdf then gc_meta_w g else gc_meta_wo g) ++ opt_list (gc_vsh g) ++ opt_list (gc_ash g) ++ gc_all g.
 
+(* isHeaderMsg of broadcastByRtmpMsg: metadata, video or AAC sequence header.
+   Such a message is no frame; a session that waits for a key frame receives
+   it all the same (fix F-08i). *)
+Definition is_hdr_msg (m : rmsg) : bool :=
+  (rm_type m =? type_metadata) || is_video_key_seq_header m || is_aac_seq_header m.
+
 (* One visit of the loop over rtmpSubSessionSet at the top of
    broadcastByRtmpMsg, for a session that is not admitted yet.  Returns the
-   session and whether MergeWriter.Flush() was called during the visit. *)
-Definition rtmp_visit (cache : gop_cache label) (key : bool) (c : consumer) : consumer * bool :=
+   session and whether MergeWriter.Flush() was called during the visit.
+   [hdr] = isHeaderMsg, [lc] = the chunks of the message being published: a
+   session that is still waiting after the key-frame test gets a header message
+   written directly (the broadcast writers and the merge writer skip it). *)
+Definition rtmp_visit (cache : gop_cache label) (key hdr : bool) (lc : label) (c : consumer) : consumer * bool :=
   let '(c1, f1) :=
     if c_fresh c then
       (* prologue; ShouldWaitVideoKeyFrame=false when a GOP is cached; Flush; IsFresh=false *)
       let c' := c_append c (prologue cache false) in
       (c_set c' false (if Nat.ltb 0 (gc_count cache) then false else c_wait c'), true)
     else (c, false) in
-  if c_wait c1 && key then (c_set c1 (c_fresh c1) false, true) else (c1, f1).
+  if c_wait c1 && key then (c_set c1 (c_fresh c1) false, true)
+  else if c_wait c1 && hdr then (c_append c1 [lc], f1)
+  else (c1, f1).
 
 (* The loop.  A Flush delivers the merge buffer to every session that is
    admitted at that moment - visited or not - and never to the session being
@@ -128,23 +139,23 @@ Definition rtmp_visit (cache : gop_cache label) (key : bool) (c : consumer) : co
    (reversed); sessions not yet visited receive what earlier flushes owe them
    ([pend]) when the loop reaches them, which is the same bytes in the same
    order because an admitted session is otherwise untouched by its visit. *)
-Fixpoint rtmp_loop_aux (cache : gop_cache label) (key : bool)
+Fixpoint rtmp_loop_aux (cache : gop_cache label) (key hdr : bool) (lc : label)
          (done todo : list consumer) (merge pend : list label) : list consumer * list label :=
   match todo with
   | [] => (rev done, merge)
   | c0 :: rest =>
-      if negb (ckind_eqb (c_kind c0) KRtmp) then rtmp_loop_aux cache key (c0 :: done) rest merge pend
-      else if admitted c0 then rtmp_loop_aux cache key (c_append c0 pend :: done) rest merge pend
+      if negb (ckind_eqb (c_kind c0) KRtmp) then rtmp_loop_aux cache key hdr lc (c0 :: done) rest merge pend
+      else if admitted c0 then rtmp_loop_aux cache key hdr lc (c_append c0 pend :: done) rest merge pend
       else
-        let '(c1, flushed) := rtmp_visit cache key c0 in
+        let '(c1, flushed) := rtmp_visit cache key hdr lc c0 in
         if flushed
-        then rtmp_loop_aux cache key (c1 :: write_rtmp_admitted merge done) rest [] (pend ++ merge)
-        else rtmp_loop_aux cache key (c1 :: done) rest merge pend
+        then rtmp_loop_aux cache key hdr lc (c1 :: write_rtmp_admitted merge done) rest [] (pend ++ merge)
+        else rtmp_loop_aux cache key hdr lc (c1 :: done) rest merge pend
   end.
 
-Definition rtmp_loop (cache : gop_cache label) (key : bool) (subs : list consumer) (merge : list label)
+Definition rtmp_loop (cache : gop_cache label) (key hdr : bool) (lc : label) (subs : list consumer) (merge : list label)
   : list consumer * list label :=
-  rtmp_loop_aux cache key [] subs merge [].
+  rtmp_loop_aux cache key hdr lc [] subs merge [].
 
 Definition has_kind (k : ckind) (subs : list consumer) : bool :=
   existsb (fun c => ckind_eqb (c_kind c) k) subs.
@@ -168,7 +179,7 @@ Definition push_step (cache : gop_cache label) (lw : label) (c : consumer) : con
     let c1 := if c_fresh c then c_set (c_append c (prologue cache true)) false (c_wait c) else c in
     c_append c1 [lw].
 
-Definition flv_step (cache : gop_cache label) (key : bool) (lt : label) (c : consumer) : consumer :=
+Definition flv_step (cache : gop_cache label) (key hdr : bool) (lt : label) (c : consumer) : consumer :=
   if negb (ckind_eqb (c_kind c) KFlv) then c
   else
     let c1 :=
@@ -176,7 +187,10 @@ Definition flv_step (cache : gop_cache label) (key : bool) (lt : label) (c : con
         let c' := c_append c (prologue cache false) in
         c_set c' false (if Nat.ltb 0 (gc_count cache) then false else c_wait c')
       else c in
-    if c_wait c1 then (if key then c_set (c_append c1 [lt]) (c_fresh c1) false else c1)
+    if c_wait c1 then
+      (if key then c_set (c_append c1 [lt]) (c_fresh c1) false
+       else if hdr then c_append c1 [lt]      (* metadata / sequence header: sent, keeps waiting (fix F-08i) *)
+       else c1)
     else c_append c1 [lt].
 
 Definition set_subs (s : gstate) subs merge msize : gstate :=
@@ -206,9 +220,10 @@ Definition publish (c : cfg) (s : gstate) (m : rmsg) : gstate :=
   if Nat.eqb (length (rm_payload m)) 0 then bump s
   else
     let key := is_video_key_nalu m in
+    let hdr := is_hdr_msg m in
     let cls := mclass_of m in
     (* RTMP subscribers: prologue / admission loop *)
-    let '(subs1, merge1) := rtmp_loop (g_rtmp_cache s) key (g_subs s) (g_merge s) in
+    let '(subs1, merge1) := rtmp_loop (g_rtmp_cache s) key hdr (LC i) (g_subs s) (g_merge s) in
     let msize1 := if Nat.eqb (length merge1) 0 then 0 else g_merge_size s in
     (* live write: direct, or through the merge writer *)
     let '(subs2, merge2, msize2) :=
@@ -222,7 +237,7 @@ Definition publish (c : cfg) (s : gstate) (m : rmsg) : gstate :=
       else (subs1, merge1, msize1) in
     (* relay push, HTTP-FLV *)
     let subs3 := map (push_step (g_rtmp_cache s) (lcw m i)) subs2 in
-    let subs4 := map (flv_step (g_flv_cache s) key (LT i)) subs3 in
+    let subs4 := map (flv_step (g_flv_cache s) key hdr (LT i)) subs3 in
     let rec' := if g_rec_open s then rec_append (g_rec s) (LT i) else g_rec s in
     (* caches are fed after the fan-out *)
     let rc := if cf_rtmp_enable c then
